@@ -587,13 +587,18 @@ func runCase(p params, ops []opJ) (*observed, error) {
 	quiesce()
 	if p.Timer == "system" {
 		// real timers: wait (bounded) until everything expected has arrived; a correct pipeline always gets there
-		for delivered() < expected {
-			if time.Since(t0) > 10*time.Second {
+		last := delivered()
+		for last < expected {
+			if time.Since(t0) > 3*time.Second { // 3 s without a single new event
 				obs.TimedOut = true
 				break
 			}
 			time.Sleep(100 * time.Microsecond)
 			quiesce()
+			if d := delivered(); d > last {
+				last = d
+				t0 = time.Now()
+			}
 		}
 		// let stale time-outs drain
 		time.Sleep(time.Duration(p.DelayUS)*time.Microsecond + 200*time.Microsecond)
